@@ -260,6 +260,30 @@ class Expand(_ModeMixin, DisjointUnionStrategy):
         raise ValueError("word not in class")
 
 
+class Expand2(Expand):
+    """a second, competing decomposition of the same classes: the bare prefix, the one-letter extensions as single words, and
+    one child per two next letters"""
+
+    def _kids(self, c):
+        res = []
+        order = [(c.prefix, True)] + [(c.prefix + a, True) for a in c.alphabet] + [(c.prefix + a + b, False) for a in c.alphabet for b in c.alphabet]
+        for pre, jp in order:
+            cp, m = child_params(c, self.mode.replace("last", ""), pre, 0, jp)
+            res.append((PW(pre, c.patterns, c.alphabet, jp, cp), m))
+        return res
+
+    def forward_map(self, c, w, children=None):
+        if children is None:
+            children = self.decomposition_function(c)
+        for i, ch in enumerate(children):
+            if (str(w) == str(ch.prefix)) if ch.just_prefix else (len(w) >= len(ch.prefix) and w.startswith(ch.prefix)):
+                return (None,) * i + (W(w),) + (None,) * (len(children) - i - 1)
+        raise ValueError("word not in class")
+
+    def formal_step(self):
+        return f"expand by two letters {self.mode}".strip()
+
+
 def safe_front(c):
     m = max((len(p) for p in c.patterns), default=1)
     s = max(0, len(c.prefix) - m + 1)
@@ -879,7 +903,9 @@ def make_pack(mode="", inferral=False, symmetry=False, iterative=False, factory=
     else:
         exp = [[Expand(mode)]]
     init = [Peel(mode)]
-    if rot == "split":  # a restricted one-way relabelling first, the same relabelling two-way in the next expansion set: cycles closed by an equivalence
+    if rot == "two":  # two competing decompositions of every class
+        exp = [[Expand(mode), Expand2(mode)]]
+    elif rot == "split":  # a restricted one-way relabelling first, the same relabelling two-way in the next expansion set: cycles closed by an equivalence
         exp = [[Rot(mode, 1, False, None, True)], [Rot(mode, 1, True, None, "only")]] + exp
     elif rot == "ne":
         exp = [[Rot(mode, 1, False), RotNE(mode, 2, True)]] + exp
